@@ -3,8 +3,14 @@
 //!   trace  : (M, ops, observations)           -> check_trace   (model = impl; never-backwards oracle)
 //!   conv   : (M, delivery1, delivery2, d1, d2) -> check_conv    (convergence oracle; tie class known)
 //!   global : (M, gops, dumps)                  -> check_global  (failed-incarnation bound oracle)
+//!   mgr    : (R, maxd, expire, mops, obs)      -> check_mgr     (a cluster of real GossipMembershipManagers
+//!            joined by a captured transport: model = impl, never-backwards and failed-bound oracles)
 use nvh_common::*;
-use tensor_chain::gossip::{GossipNodeState, LWWMembershipState};
+use async_trait::async_trait;
+use parking_lot::Mutex;
+use std::sync::Arc;
+use tensor_chain::gossip::{GossipConfig, GossipMembershipManager, GossipMessage, GossipNodeState, LWWMembershipState};
+use tensor_chain::network::{Message, PeerConfig, Transport};
 use tensor_chain::membership::NodeHealth;
 
 fn hcode(h: NodeHealth) -> u64 {
@@ -293,6 +299,245 @@ fn global_case(r: &mut Rng, mm: u64, len: usize, dist: &mut Dist) -> (String, St
     (term, format!("M={} gops={:?}", mm, ops), failed_seen)
 }
 
+// ------------------------------------------------------------------ manager layer
+type Out = Arc<Mutex<Vec<(String, Message)>>>;
+struct Cap {
+    local: String,
+    out: Out,
+}
+#[async_trait]
+impl Transport for Cap {
+    async fn send(&self, to: &String, msg: Message) -> tensor_chain::Result<()> {
+        self.out.lock().push((to.clone(), msg));
+        Ok(())
+    }
+    async fn broadcast(&self, _msg: Message) -> tensor_chain::Result<()> {
+        Ok(())
+    }
+    async fn recv(&self) -> tensor_chain::Result<(String, Message)> {
+        std::future::pending().await
+    }
+    async fn connect(&self, _peer: &PeerConfig) -> tensor_chain::Result<()> {
+        Ok(())
+    }
+    async fn disconnect(&self, _peer_id: &String) -> tensor_chain::Result<()> {
+        Ok(())
+    }
+    fn peers(&self) -> Vec<String> {
+        vec![]
+    }
+    fn local_id(&self) -> &String {
+        &self.local
+    }
+}
+
+#[derive(Clone, Debug)]
+enum MOp {
+    Round(u64, Vec<u64>),
+    SuspectNode(u64, u64),
+    Deliver(u64),
+}
+impl MOp {
+    fn coq(&self) -> String {
+        match self {
+            MOp::Round(r, o) => format!("MRound {r} {}", list(o.iter().map(|x| n(*x)))),
+            MOp::SuspectNode(r, m) => format!("MSuspectNode {r} {m}"),
+            MOp::Deliver(k) => format!("MDeliver {k}"),
+        }
+    }
+}
+
+fn gmsg_rank(m: &GossipMessage) -> u64 {
+    match m {
+        GossipMessage::Sync { .. } => 0,
+        GossipMessage::Suspect { .. } => 1,
+        GossipMessage::Alive { .. } => 2,
+        GossipMessage::PingReq { .. } => 3,
+        GossipMessage::PingAck { .. } => 4,
+        _ => 5,
+    }
+}
+fn gmsg_coq(m: &GossipMessage) -> String {
+    match m {
+        GossipMessage::Sync { sender, states, sender_time } => {
+            let mut us: Vec<(u64, u64, u64, u64)> =
+                states.iter().map(|g| (idx(&g.node_id), hcode(g.health), g.timestamp, g.incarnation)).collect();
+            us.sort();
+            format!(
+                "GSync {} {} {}",
+                idx(sender),
+                list(us.iter().map(|(m, h, t, i)| format!("({m}, U {h} {t} {i})"))),
+                sender_time
+            )
+        },
+        GossipMessage::Suspect { reporter, suspect, incarnation } => format!("GSusp {} {} {}", idx(reporter), idx(suspect), incarnation),
+        GossipMessage::Alive { node_id, incarnation } => format!("GAliv {} {}", idx(node_id), incarnation),
+        GossipMessage::PingReq { origin, target, sequence } => format!("GPReq {} {} {}", idx(origin), idx(target), sequence),
+        GossipMessage::PingAck { origin, target, sequence, success } => {
+            format!("GPAck {} {} {} {}", idx(origin), idx(target), sequence, b(*success))
+        },
+        _ => "GPAck 0 0 0 false".to_string(),
+    }
+}
+
+struct Cluster {
+    rt: tokio::runtime::Runtime,
+    mgrs: Vec<GossipMembershipManager>,
+    out: Out,
+    pool: Vec<(u64, GossipMessage)>,
+}
+impl Cluster {
+    fn new(rr: u64, maxd: u64, expire: bool) -> Self {
+        let rt = tokio::runtime::Builder::new_current_thread().enable_all().build().unwrap();
+        let out: Out = Arc::new(Mutex::new(vec![]));
+        let mgrs = (0..rr)
+            .map(|i| {
+                let cfg = GossipConfig {
+                    fanout: 16,
+                    indirect_ping_count: 16,
+                    max_states_per_message: 1000,
+                    geometric_routing: false,
+                    suspicion_timeout_ms: if expire { 0 } else { 3_600_000_000 },
+                    max_incarnation_delta: maxd,
+                    ..GossipConfig::default()
+                };
+                let m = GossipMembershipManager::new(name(i), cfg, Arc::new(Cap { local: name(i), out: out.clone() }));
+                for p in 0..rr {
+                    if p != i {
+                        m.add_peer(name(p));
+                    }
+                }
+                m
+            })
+            .collect();
+        Cluster { rt, mgrs, out, pool: vec![] }
+    }
+    /// let spawned sender tasks run, then move what the transport captured into the pool (canonical order)
+    fn flush(&mut self) -> Vec<(u64, GossipMessage)> {
+        self.rt.block_on(async {
+            for _ in 0..32 {
+                tokio::task::yield_now().await;
+            }
+        });
+        let mut new: Vec<(u64, GossipMessage)> = self
+            .out
+            .lock()
+            .drain(..)
+            .filter_map(|(to, m)| match m {
+                Message::Gossip(g) => Some((idx(&to), g)),
+                _ => None,
+            })
+            .collect();
+        new.sort_by_key(|(d, g)| (gmsg_rank(g), *d));
+        self.pool.extend(new.iter().cloned());
+        new
+    }
+    fn dump(&self, r: u64, rr: u64) -> Vec<Option<(u64, u64, u64)>> {
+        (0..rr)
+            .map(|m| self.mgrs[r as usize].node_state(&name(m)).map(|g| (hcode(g.health), g.timestamp, g.incarnation)))
+            .collect()
+    }
+}
+
+/// one schedule on a cluster; `script` (when given) is replayed instead of random choices
+fn mgr_case(r: &mut Rng, rr: u64, maxd: u64, expire: bool, len: usize, script: Option<&[MOp]>, dist: &mut Dist) -> (String, String, bool) {
+    let mut c = Cluster::new(rr, maxd, expire);
+    let mut ops = vec![];
+    let mut obs = vec![];
+    let mut failed_seen = false;
+    let mut alive_seen = false;
+    let steps = script.map_or(len, |s| s.len());
+    for step in 0..steps {
+        let choice = match script {
+            Some(s) => s[step].clone(),
+            None => {
+                let k = r.below(100);
+                if c.pool.is_empty() || k < 18 {
+                    if r.chance(1, 2) {
+                        MOp::Round(r.below(rr), vec![])
+                    } else {
+                        MOp::SuspectNode(r.below(rr), r.below(rr))
+                    }
+                } else if k < 30 {
+                    MOp::Round(r.below(rr), vec![])
+                } else if k < 42 {
+                    MOp::SuspectNode(r.below(rr), r.below(rr))
+                } else if r.chance(2, 3) {
+                    // recent envelopes more often than old ones; suspicions about the destination itself and
+                    // Alive messages preferred (they are what moves incarnations)
+                    let nn = c.pool.len() as u64;
+                    let pref: Vec<u64> = (0..nn)
+                        .filter(|k| match &c.pool[*k as usize] {
+                            (d, GossipMessage::Suspect { suspect, .. }) => idx(suspect) == *d,
+                            (_, GossipMessage::Alive { .. }) => true,
+                            _ => false,
+                        })
+                        .collect();
+                    if !pref.is_empty() && r.chance(1, 2) {
+                        MOp::Deliver(*r.pick(&pref))
+                    } else {
+                        MOp::Deliver(nn - 1 - r.below(nn.min(6)))
+                    }
+                } else {
+                    MOp::Deliver(r.below(c.pool.len() as u64))
+                }
+            },
+        };
+        let (op, who) = match choice {
+            MOp::Round(m, _) => {
+                let before = c.dump(m, rr);
+                let clock0 = c.mgrs[m as usize].lamport_time();
+                c.rt.block_on(async { c.mgrs[m as usize].gossip_round().await }).unwrap();
+                let after = c.dump(m, rr);
+                // members this round failed, in the order the clock ticked for them
+                let mut newly: Vec<(u64, u64)> = (0..rr)
+                    .filter_map(|x| match (before[x as usize], after[x as usize]) {
+                        (Some((h0, _, _)), Some((2, t, _))) if h0 != 2 && t > clock0 => Some((t, x)),
+                        _ => None,
+                    })
+                    .collect();
+                newly.sort();
+                if !newly.is_empty() {
+                    failed_seen = true;
+                }
+                dist.hit("mop.round");
+                (MOp::Round(m, newly.iter().map(|(_, x)| *x).collect()), m)
+            },
+            MOp::SuspectNode(m, x) => {
+                c.rt.block_on(async { c.mgrs[m as usize].suspect_node(&name(x)).await }).unwrap();
+                dist.hit("mop.suspect_node");
+                (MOp::SuspectNode(m, x), m)
+            },
+            MOp::Deliver(k) => {
+                let (d, msg) = c.pool[k as usize].clone();
+                dist.hit(&format!("mop.deliver.{}", ["sync", "suspect", "alive", "pingreq", "pingack", "other"][gmsg_rank(&msg) as usize]));
+                let mg = &c.mgrs[d as usize];
+                c.rt.block_on(async { mg.handle_gossip(msg) });
+                (MOp::Deliver(k), d)
+            },
+        };
+        let new = c.flush();
+        if new.iter().any(|(_, g)| matches!(g, GossipMessage::Alive { .. })) {
+            alive_seen = true;
+        }
+        obs.push(format!(
+            "({}, {}, {})",
+            c.mgrs[who as usize].lamport_time(),
+            dump_coq(&c.dump(who, rr)),
+            list(new.iter().map(|(d, g)| format!("({d}, {})", gmsg_coq(g))))
+        ));
+        ops.push(op);
+    }
+    if failed_seen {
+        dist.hit("mgr.case_with_expiry_failure");
+    }
+    if alive_seen {
+        dist.hit("mgr.case_with_self_refutation");
+    }
+    let term = format!("({rr}, {maxd}, {}, {}, {})", b(expire), list(ops.iter().map(|o| o.coq())), list(obs));
+    (term, format!("R={rr} max_incarnation_delta={maxd} expire={expire} mops={ops:?}"), failed_seen || alive_seen)
+}
+
 /// every permutation of a small set, delivered one by one (exhaustive over orders)
 fn permutations<T: Clone>(xs: &[T]) -> Vec<Vec<T>> {
     if xs.len() <= 1 {
@@ -381,13 +626,37 @@ fn main() {
         global.push(&t, &h, nt);
     }
 
+    let mut mgr = CaseWriter::new(&args.out, "mgr");
+    {
+        // corpus: suspicion -> self-refutation -> Alive accepted; suspicion -> expiry -> Failed; a Sync that carries it on
+        let s1 = [MOp::SuspectNode(0, 1), MOp::Deliver(0), MOp::Deliver(2), MOp::Round(0, vec![]), MOp::Deliver(3)];
+        let (t, h, nt) = mgr_case(&mut rng, 2, 100, true, 0, Some(&s1), &mut dist);
+        mgr.push(&t, &format!("corpus self-refutation: {h}"), nt);
+        let s2 = [MOp::SuspectNode(0, 1), MOp::SuspectNode(0, 2), MOp::Round(0, vec![]), MOp::Deliver(4), MOp::Deliver(5), MOp::Round(1, vec![]), MOp::Deliver(6)];
+        let (t, h, nt) = mgr_case(&mut rng, 3, 100, true, 0, Some(&s2), &mut dist);
+        mgr.push(&t, &format!("corpus expiry of two suspicions: {h}"), nt);
+        // incarnation-delta filter: with max delta 0 an Alive / Sync carrying a raised incarnation is refused
+        let s3 = [MOp::SuspectNode(0, 1), MOp::Deliver(0), MOp::Deliver(2), MOp::Round(1, vec![]), MOp::Deliver(3)];
+        let (t, h, nt) = mgr_case(&mut rng, 2, 0, false, 0, Some(&s3), &mut dist);
+        mgr.push(&t, &format!("corpus delta filter: {h}"), nt);
+    }
+    let nmgr = args.budget(120, 6000);
+    for _ in 0..nmgr {
+        let rr = rng.range(2, 4);
+        let maxd = *rng.pick(&[100u64, 100, 1, 0]);
+        let expire = rng.chance(1, 2);
+        let len = rng.range(4, 30) as usize;
+        let (t, h, nt) = mgr_case(&mut rng, rr, maxd, expire, len, None, &mut dist);
+        mgr.push(&t, &h, nt);
+    }
+
     write_meta(
         &args.out,
         json!({
             "property": "C17", "seed": args.seed, "tier": args.tier,
-            "kinds": [conv.summary(), trace.summary(), global.summary()],
+            "kinds": [conv.summary(), trace.summary(), global.summary(), mgr.summary()],
             "distribution": dist.json(),
-            "nontrivial_rule": "conv: update set of >= 2 updates; trace: >= 2 ops with at least one effective call; global: a fail() that took effect occurs",
+            "nontrivial_rule": "conv: update set of >= 2 updates; trace: >= 2 ops with at least one effective call; global: a fail() that took effect occurs; mgr: a suspicion expired into Failed or a manager refuted a suspicion about itself",
         }),
     );
 }
